@@ -112,7 +112,8 @@ func (c *specCtx) tr(x *SExpr) Value {
 		i := c.intTerm(x.Args[1])
 		if inner := x.Args[0]; inner.Kind != "old" {
 			if b := c.tr(inner); b.K == VSlice && b.ElemU {
-				return uV(Select(Select(e.memU(), b.Ref), Add(b.Off, i)))
+				// read through a view, so that quantified facts about "element t" have a trigger free of arithmetic
+				return uV(Select(App("shiftU", SArrU, Select(e.memU(), b.Ref), b.Off), i))
 			}
 		}
 		return intV(Select(c.seqArgs(x.Args[0]), i))
@@ -642,7 +643,13 @@ func (c *specCtx) pureCall(x *SExpr) (Value, bool) {
 			continue
 		}
 		short := key[strings.LastIndex(key, "/")+1:]
-		if short == x.Name || strings.TrimPrefix(short, shortPkg(c.e.pkg.Path)+".") == x.Name {
+		// an unqualified name is looked up in the package the clause was written in (a callee's postcondition used at
+		// a call site in another package), then in the package being verified
+		own := short == x.Name || strings.TrimPrefix(short, shortPkg(c.e.pkg.Path)+".") == x.Name
+		if !own && c.pkg != nil {
+			own = strings.TrimPrefix(short, shortPkg(c.pkg.Path)+".") == x.Name
+		}
+		if own {
 			var args []*Term
 			for _, a := range x.Args {
 				v := c.tr(a)
